@@ -1,5 +1,5 @@
 """C10 — row-wise computation sees exactly each row's own data."""
-from .. import ops_nf
+from .. import ops_nf, ops_names
 from ..subject import Subject
 
 ASSUMPTIONS = ["the user function is opaque: the model returns the call log, the oracle replays the recorded returns"]
@@ -11,3 +11,8 @@ def run(ctx):
         ops_nf.case_reduce(ctx, s)
         if i % 2 == 0:
             ops_nf.case_count_nested(ctx, s)
+        if i % 4 == 1:
+            # paths ending in the same name in different layers, in ONE call
+            ops_names.case_reduce_many_paths(ctx)
+        if i % 4 == 3:
+            ops_nf.case_reduce_after_inplace_field(ctx, Subject(ctx, allow_hidden=False))
